@@ -302,6 +302,11 @@ func (h *HttpServer) handleStreamInit(w http.ResponseWriter, r *http.Request) {
 				h.logIPCWriteErr("state-token-batch", info.Name, werr)
 				handlerErr = werr
 			}
+			if handlerErr != nil {
+				// Without a continuation token the client would read this
+				// response as the normal end of the stream: say it failed.
+				h.logIPCWriteErr("error-batch", info.Name, writeErrorBatch(writer, outputSchema, handlerErr, h.server.serverID, "", h.server.debugErrors))
+			}
 		}
 		if cerr := writer.Close(); cerr != nil {
 			h.logIPCWriteErr("close", info.Name, cerr)
@@ -685,6 +690,11 @@ func (h *HttpServer) handleProducerContinuation(ctx context.Context, w http.Resp
 			h.logIPCWriteErr("state-token-batch", info.Name, werr)
 			err = werr
 		}
+		if err != nil {
+			// Same as at /init: a response without a token reads as a
+			// finished stream, so the failure has to be in it.
+			h.logIPCWriteErr("error-batch", info.Name, writeErrorBatch(writer, schema, err, h.server.serverID, "", h.server.debugErrors))
+		}
 	}
 	if cerr := writer.Close(); cerr != nil {
 		h.logIPCWriteErr("close", info.Name, cerr)
@@ -871,8 +881,20 @@ func (h *HttpServer) handleExchangeCall(ctx context.Context, w http.ResponseWrit
 		return capErr
 	}
 
+	if writeErr != nil {
+		// A batch the response writer refused is missing from buf (possibly
+		// the data batch with the continuation token): answer with the
+		// failure instead of a stream that reads as a normal end.
+		var errBuf bytes.Buffer
+		errW := ipc.NewWriter(&errBuf, ipc.WithSchema(schema))
+		h.logIPCWriteErr("error-batch", info.Name, writeErrorBatch(errW, schema, writeErr, h.server.serverID, "", h.server.debugErrors))
+		h.logIPCWriteErr("close", info.Name, errW.Close())
+		h.writeArrow(w, http.StatusInternalServerError, errBuf.Bytes())
+		return writeErr
+	}
+
 	h.writeArrow(w, http.StatusOK, buf.Bytes())
-	return writeErr
+	return nil
 }
 
 // writeExchangeCapError discards whatever the exchange turn produced and
@@ -1162,6 +1184,7 @@ func (h *HttpServer) runProduceLoopCapped(ctx context.Context, writer *ipc.Write
 				if werr != nil {
 					h.logIPCWriteErr("data-batch", info.Name, werr)
 					ab.batch.Release()
+					h.logIPCWriteErr("error-batch", info.Name, writeErrorBatch(writer, schema, werr, h.server.serverID, "", h.server.debugErrors))
 					return false, werr
 				}
 				dataBatches++
@@ -1172,6 +1195,7 @@ func (h *HttpServer) runProduceLoopCapped(ctx context.Context, writer *ipc.Write
 					h.logIPCWriteErr("log-batch", info.Name, werr)
 					batchWithMeta.Release()
 					ab.batch.Release()
+					h.logIPCWriteErr("error-batch", info.Name, writeErrorBatch(writer, schema, werr, h.server.serverID, "", h.server.debugErrors))
 					return false, werr
 				}
 				batchWithMeta.Release()
@@ -1179,6 +1203,7 @@ func (h *HttpServer) runProduceLoopCapped(ctx context.Context, writer *ipc.Write
 				if werr := writer.Write(ab.batch); werr != nil {
 					h.logIPCWriteErr("batch", info.Name, werr)
 					ab.batch.Release()
+					h.logIPCWriteErr("error-batch", info.Name, writeErrorBatch(writer, schema, werr, h.server.serverID, "", h.server.debugErrors))
 					return false, werr
 				}
 			}
